@@ -83,6 +83,15 @@ Definition C16_check (c : dcase) : verdict :=
       end
   end.
 
+(* ---------- C06, decorator leg: the update strategy of the attachment rule decides the verb ---------- *)
+(* the implementation's own trace only (PROPFAIL | OK); the model comparison is C16_check's business *)
+Definition C06d_check (c : dcase) : verdict :=
+  if negb (forallb round_in_domain (d_rounds c)) then SKIP "target-annotation-holds-embedded-json" else
+  match first_dround_fail (fun r => C06d_round (d_cfg c) (d_cache r) (d_events r) (d_result r)) (d_rounds c) 0 with
+  | Some w => PROPFAIL w
+  | None => OK
+  end.
+
 (* ---------- debugging aids (not used by the verdict) ---------- *)
 Definition model_calls (c : dcfg) (r : dround) : list string * sync_result :=
   let '(hist, res) := run (sync_d c (d_cache r)) (env_of_log (d_events r)) [] in
